@@ -101,11 +101,12 @@ func (t *Translator) transformStreamingSync(ctx context.Context, openaiStream io
 
 // process single sse line from openai, route to content or tool handlers
 func (t *Translator) processStreamLine(line string, state *StreamingState, w http.ResponseWriter, rc *http.ResponseController) error {
-	if !strings.HasPrefix(line, "data: ") {
+	// the space after the colon is optional in SSE ("data:{...}" is the same event)
+	if !strings.HasPrefix(line, "data:") {
 		return nil
 	}
 
-	data := strings.TrimPrefix(line, "data: ")
+	data := strings.TrimPrefix(strings.TrimPrefix(line, "data:"), " ")
 	if strings.TrimSpace(data) == "[DONE]" {
 		return nil
 	}
